@@ -4,8 +4,8 @@ package main
 // lowering it to SSA. Nothing of the repository is executed.
 
 import (
-	"encoding/json"
 	_ "embed"
+	"encoding/json"
 	"fmt"
 	"go/ast"
 	"go/constant"
